@@ -1,7 +1,7 @@
 (** C10 - Template variables and CLI arguments reach commands with a fixed precedence. *)
 From Coq Require Import List Arith NArith ZArith Bool.
 Import ListNotations.
-From TaskctlV Require Import Model.Stage Model.Env Proofs.EnvSpec Model.Cli Proofs.CliSpec Model.TaskRun Proofs.TaskRunSpec.
+From TaskctlV Require Import Model.Stage Model.Env Proofs.EnvSpec Model.Cli Proofs.CliSpec Model.TaskRun Proofs.TaskRunSpec Model.SetFlag Proofs.SetFlagSpec.
 
 Theorem C10_precedence : forall V name,
   lookup name (vars_seen V) =
@@ -39,6 +39,20 @@ Print Assumptions C10_undefined_variable_fails_before_executing.
 Theorem C10_undefined_stops_even_if_allowed : forall allow j, job_res j = NoStart -> stops allow j = true.
 Proof. intros allow j H. unfold stops. rewrite H. reflexivity. Qed.
 Print Assumptions C10_undefined_stops_even_if_allowed.
+
+(* `--set name=value`: the name is the text before the FIRST '=', the value everything after it, verbatim (further '=' included,
+   possibly empty); a flag without '=' sets nothing; the last --set of a name wins.  [set_flag_iff] is the complete description. *)
+Theorem C10_set_flag_splits_at_first_equals : forall s k v, set_flag s = Some (k, v) <-> (s = k ++ eqc :: v /\ ~ In eqc k).
+Proof. exact set_flag_iff. Qed.
+Print Assumptions C10_set_flag_splits_at_first_equals.
+Theorem C10_set_flag_without_equals_sets_nothing : forall s, ~ In eqc s -> set_flag s = None.
+Proof. exact set_flag_none. Qed.
+Print Assumptions C10_set_flag_without_equals_sets_nothing.
+Theorem C10_last_set_wins : forall flags k v m, ~ In eqc k -> vlookup k (apply_sets (flags ++ [k ++ eqc :: v]) m) = Some v.
+Proof. exact last_set_wins. Qed.
+Print Assumptions C10_last_set_wins.
+Example C10_set_flag_example : set_flag [118; 61; 97; 61; 98] = Some ([118], [97; 61; 98]) /\ set_flag [118; 61] = Some ([118], []) /\ set_flag [118] = None.
+Proof. repeat split; reflexivity. Qed.
 
 (* non-vacuity, and the pinned taskArgs (last "--", nothing if it is the last word) *)
 Example C10_split_example : targets_of [5; 6; 0; 7; 0; 8] = [5; 6] /\ task_args [5; 6; 0; 7; 0; 8] = [7; 0; 8].
